@@ -228,6 +228,59 @@ type closerResult struct {
 }
 
 func isRollbackOfOwnCreate(p *Prog, m mutation) bool {
+	// the removal sits in a function literal of the creating function (a deferred rollback): every
+	// registration or call of the literal must come after a creator of the same captured path
+	if par := m.Fn.Parent(); par != nil && len(m.Call.Common().Args) > 0 {
+		bind, deref := freeBinding(m.Fn, m.Call.Common().Args[0])
+		if bind == nil {
+			return false
+		}
+		for _, call := range calls(par) {
+			bc := asBackendCall(call)
+			if bc == nil || bc.OnFile {
+				continue
+			}
+			class, idx := nsMutationPaths(bc)
+			if class != "ns-create" || len(idx) == 0 {
+				continue
+			}
+			arg := call.Common().Args[idx[0]]
+			same := arg == bind
+			if deref {
+				u, isU := arg.(*ssa.UnOp)
+				same = isU && u.X == bind
+			}
+			if !same {
+				continue
+			}
+			after, uses := true, 0
+			for _, mc := range closuresOf(par, m.Fn) {
+				for _, r := range *mc.Referrers() {
+					var ub *ssa.BasicBlock
+					switch u := r.(type) {
+					case *ssa.Defer:
+						ub = u.Block()
+					case *ssa.Call:
+						ub = u.Block()
+					case *ssa.DebugRef:
+						continue
+					default:
+						after = false
+						continue
+					}
+					uses++
+					cb := call.Block()
+					if !(cb == ub && instrIndex(call) < instrIndex(r) || cb != ub && cb.Dominates(ub)) {
+						after = false
+					}
+				}
+			}
+			if after && uses > 0 {
+				return true
+			}
+		}
+		return false
+	}
 	for _, call := range calls(m.Fn) {
 		if call == m.Call {
 			continue
